@@ -11,7 +11,7 @@ Exit codes: 0 every obligation discharged (KNOWN-FINDING lines may be printed),
             1 VIOLATION (named obligation failed), 2 UNDECIDED (timeout, tool error,
             extraction break, vacuity alarm).
 """
-import sys, os, re, json, time, shutil, subprocess, resource, hashlib, argparse, traceback
+import threading, sys, os, re, json, time, shutil, subprocess, resource, hashlib, argparse, traceback
 from concurrent.futures import ThreadPoolExecutor
 
 HERE = os.path.dirname(os.path.abspath(__file__))
@@ -801,8 +801,12 @@ def do_check(prop, tier, only, keep, jobs, write_evidence=True):
         for spec in sel:
             for defines, tag, finding in expand_findings(spec, findings):
                 tasks.append((Obl(spec, stage, tier, defines, tag), finding))
+        heavy = threading.Semaphore(1)      # obligations that may need more than the default memory cap run one at a time
         def work(t):
             try:
+                if t[0].s.get('mem_gb', 12) > 12:
+                    with heavy:
+                        return t[0].run()
                 return t[0].run()
             except Exception as e:
                 traceback.print_exc()
